@@ -926,7 +926,11 @@ fn mutations(rng: &mut Rng, b: &Base, unsigned: &GReq, signed: &GReq, expires: &
             let d = r.headers[find_header(&r, "x-amz-date").unwrap()].clone();
             r.headers.push((d.0, rand_date(rng)));
             sign(&mut r, None);
-            out(&r, "any", "dup-xamzdate-signed");
+            // any number of x-amz-date lines is the time stamp: Date is blanked, the values are signed comma-joined
+            out(&r, "accept", "dup-xamzdate-signed");
+            let mut r = signed.clone();
+            r.headers.push(("X-Amz-Date".to_owned(), rand_date(rng)));
+            out(&r, "reject", "dup-xamzdate-after-signing");
         }
         if di.is_none() && xi.is_none() {
             // cannot happen for header authentication bases, kept for safety
@@ -1775,6 +1779,17 @@ fn witnesses() {
     );
     sign(&mut r, None);
     e2e("w-xamzdate-twice-signed", &r, "accept", "dup-xamzdate-signed");
+    // the same without a Date header (was refused with 'missing date')
+    let mut r = plain(
+        None,
+        "GET",
+        "/bkt/k",
+        &[],
+        &[("x-amz-date", "Tue, 27 Mar 2007 19:36:42 +0000"), ("X-Amz-Date", "Tue, 27 Mar 2007 19:36:43 +0000")],
+        None,
+    );
+    sign(&mut r, None);
+    e2e("w-xamzdate-twice-no-date-signed", &r, "accept", "dup-xamzdate-signed");
     // F-sigv2e2e-4: Expires beyond year 9999
     let mut r = plain(None, "GET", "/bkt/k", &[], &[], None);
     r.presigned = true;
